@@ -98,7 +98,12 @@ class DataOps:
         for kind_ in ('dataset', 'tdataset'):
             pool.sem_checkers[kind_] = (lambda slot, opname, prop='C11': self.check(slot, opname, prop=prop), 'C11')
         for spec in family['roots']:
-            obj = build_dataset(spec)
+            try:
+                obj = build_dataset(spec)
+            except Exception as e:
+                if pool.prop == 'C11':
+                    pool.report('C11', 'dataset_twin.raises', f'constructor:raises:{type(e).__name__}', f'dataset constructor raised {type(e).__name__}: {e}')
+                raise HarnessError(f'dataset constructor raised {e!r}')
             sem = {'rows': [(o, None) for o in spec['ou']], 'cols': [(c, None) for c in spec['cu']],
                    'times': list(spec['tu']) if spec['temporal'] else None}
             s = pool.add(obj, 'tdataset' if spec['temporal'] else 'dataset', sem, 'root', [])
